@@ -122,38 +122,45 @@ def discharge(fx, O, s):
                     return "dominated by index < len() of the same receiver"
                 if ln is not None and sym.norm(sym.strip(c)) == sym.norm(ln):
                     return "dominated by index < the checked length"
-    # (d) grown on demand: `if i >= v.len() { v.resize(i + 1, ..) }` in front of `v[i]`. The test dominates the site; on the edge where the
-    # index is not yet in range every path to the site passes a resize of the same receiver to (the same index) + 1; nothing in the
-    # function shrinks the receiver
+    # (d) grown on demand: `if i >= v.len() { v.resize(i + 1, ..) }` (or `let needed = i + 1; if v.len() < needed { v.resize(needed, ..) }`) in
+    # front of `v[i]`. The test dominates the site; on the edge where the index is not yet in range every path to the site passes a resize
+    # of the same receiver to (the same index) + k, k >= 1; nothing in the function shrinks the receiver
     if nrecv is not None:
         import reach
-        for tb, fb, op, x, y, sw in guards.branch_conditions(b, prov):
-            x1, y1 = sym.strip(x), sym.strip(y)
-            for a, c, o in ((x1, y1, op), (y1, x1, guards.CMP_FLIP[op])):
-                l = len_of(c)
-                if sym.norm(a) != ni or l is None or sym.norm(l) != nrecv:
-                    continue
-                # edge on which `i >= len` holds
-                grow = tb if o in ("Ge",) else (fb if o in ("Lt",) else None)
+
+        def beyond_index(tm):
+            tm = sym.strip(tm)
+            if tm[0] == "bin" and tm[1].replace("WithOverflow", "") == "Add":
+                p_, q_ = sym.strip(tm[2]), sym.strip(tm[3])
+                return (sym.norm(p_) == ni and q_[0] == "c" and isinstance(q_[1], int) and q_[1] >= 1) or \
+                       (sym.norm(q_) == ni and p_[0] == "c" and isinstance(p_[1], int) and p_[1] >= 1)
+            return False
+        resizes, shrinks = [], False
+        for cj, ct in b.calls():
+            cp = str(ct["callee"].get("path") or "")
+            if not ct["args"] or sym.norm(unref(prov.op(ct["args"][0]))) != nrecv:
+                continue
+            if cp.endswith(("::truncate", "::clear", "::pop", "::remove", "::swap_remove", "::drain", "::split_off", "::retain", "::dedup")):
+                shrinks = True
+            if cp.endswith(("::resize", "::resize_with")) and len(ct["args"]) >= 2 and beyond_index(prov.op(ct["args"][1])):
+                resizes.append(cj)
+        if resizes and not shrinks:
+            for tb, fb, op, x, y, sw in guards.branch_conditions(b, prov):
+                x1, y1 = sym.strip(x), sym.strip(y)
+                grow = None
+                for a, c, o in ((x1, y1, op), (y1, x1, guards.CMP_FLIP[op])):
+                    l = len_of(c)
+                    if l is None or sym.norm(l) != nrecv:
+                        continue
+                    # a `o` len(v): the index is out of range where  i >= len  or  i + k > len (k >= 1)
+                    if sym.norm(a) == ni and o in ("Ge", "Lt"):
+                        grow = tb if o == "Ge" else fb
+                    elif beyond_index(a) and o in ("Gt", "Le"):
+                        grow = tb if o == "Gt" else fb
                 if grow is None or sw is None or not b.dominates(sw, bi):
                     continue
-                resizes = []
-                shrinks = False
-                for cj, ct in b.calls():
-                    cp = str(ct["callee"].get("path") or "")
-                    if not ct["args"] or sym.norm(unref(prov.op(ct["args"][0]))) != nrecv:
-                        continue
-                    if cp.endswith(("::truncate", "::clear", "::pop", "::remove", "::swap_remove", "::drain", "::split_off", "::retain", "::dedup")):
-                        shrinks = True
-                    if cp.endswith(("::resize", "::resize_with")) and len(ct["args"]) >= 2:
-                        n_ = sym.strip(prov.op(ct["args"][1]))
-                        if n_[0] == "bin" and n_[1].replace("WithOverflow", "") == "Add":
-                            p_, q_ = sym.strip(n_[2]), sym.strip(n_[3])
-                            if (sym.norm(p_) == ni and q_[0] == "c" and isinstance(q_[1], int) and q_[1] >= 1) or \
-                               (sym.norm(q_) == ni and p_[0] == "c" and isinstance(p_[1], int) and p_[1] >= 1):
-                                resizes.append(cj)
-                if resizes and not shrinks and reach.must_pass(b, grow, [bi], resizes):
-                    return "grown on demand: where index >= len() the receiver is resized to index + 1 before the access"
+                if reach.must_pass(b, grow, [bi], resizes):
+                    return "grown on demand: where the index is not below len() the receiver is resized beyond it before the access"
     # (c) a constant index into an item of `x.windows(n)` / `x.chunks_exact(n)`: every item has exactly n elements
     if idx[0] == "c" and isinstance(idx[1], int) and recv is not None:
         r0 = recv
